@@ -234,3 +234,7 @@ pub fn def() -> CheckDef {
         ],
     }
 }
+
+pub fn check_pub(input: &gen::Sharing, case: &mut Case) -> Result<(), Fail> {
+    check_copies(input, case)
+}
